@@ -111,3 +111,99 @@ func VerifC20WatchPeers() {
 		"C20 a publication reaches the underlying pubsub once, on its topic, unchanged")
 	vstub.Assert(vstub.LiveThreads("berty.tech/go-orbit-db/pubsub") == 0, "C20 no watcher goroutine is left behind")
 }
+
+func init() {
+	verifHarnesses["VerifC20TwoWatchers"] = VerifC20TwoWatchers
+}
+
+// VerifC20TwoWatchers: two watchers on the SAME topic of one pubsub instance
+// (two stores, or a store reopened on the instance); one of them is cancelled
+// (before the first poll's events are read, or after the first event) while the
+// other keeps running.  Over the two watchers together every change of the
+// membership is still reported exactly once: for every peer the total number of
+// joins / leaves equals the number of its transitions in the snapshot sequence.
+func VerifC20TwoWatchers() {
+	nPeers := vstub.Param("P", 2)
+	nSnaps := vstub.Param("S", 3)
+	ids := make([]peer.ID, nPeers)
+	for i := range ids {
+		ids[i] = peer.ID("p" + string(rune('a'+i)))
+	}
+	script := &vstub.ScriptedPubSub{}
+	for s := 0; s < nSnaps; s++ {
+		var snap []peer.ID
+		for i := range ids {
+			if vstub.NdChoice("in", 2) == 1 {
+				snap = append(snap, ids[i])
+			}
+		}
+		script.Snapshots = append(script.Snapshots, snap)
+	}
+	ps := NewPubSub(&vstub.PubSubCoreAPI{PS: script}, peer.ID("self"), time.Second, zap.NewNop(), nil)
+	ctx, cancel := context.WithCancel(context.Background())
+	defer cancel()
+	t1, _ := ps.TopicSubscribe(ctx, "topic-x")
+	t2, _ := ps.TopicSubscribe(ctx, "topic-x")
+	ch1, err1 := t1.WatchPeers(ctx)
+	ctx2, cancel2 := context.WithCancel(ctx)
+	ch2, err2 := t2.WatchPeers(ctx2)
+	if err1 != nil || err2 != nil {
+		vstub.Fail("C20 WatchPeers failed")
+		return
+	}
+	cancelWhen := vstub.NdChoice("cancel-second-watcher", 3) // 0 at once, 1 after the first event, 2 never
+	if cancelWhen == 0 {
+		cancel2()
+	}
+	joins, leaves := map[peer.ID]int{}, map[peer.ID]int{}
+	count := func(e interface{}) {
+		switch x := e.(type) {
+		case *iface.EventPubSubJoin:
+			joins[x.Peer]++
+		case *iface.EventPubSubLeave:
+			leaves[x.Peer]++
+		}
+	}
+	seen := 0
+	for ch1 != nil || ch2 != nil {
+		select {
+		case e, ok := <-ch1:
+			if !ok {
+				ch1 = nil
+				continue
+			}
+			count(e)
+			seen++
+		case e, ok := <-ch2:
+			if !ok {
+				ch2 = nil
+				continue
+			}
+			count(e)
+			seen++
+		}
+		if cancelWhen == 1 && seen == 1 {
+			cancel2()
+		}
+	}
+	vstub.Cover("watched")
+	for _, id := range ids {
+		wantJ, wantL := 0, 0
+		in := false
+		for _, snap := range script.Snapshots {
+			now := false
+			for _, m := range snap {
+				now = now || m == id
+			}
+			if now && !in {
+				wantJ++
+			}
+			if !now && in {
+				wantL++
+			}
+			in = now
+		}
+		vstub.Assert(joins[id] == wantJ, "C20 with several watchers on a topic each join is still reported exactly once per change")
+		vstub.Assert(leaves[id] == wantL, "C20 with several watchers on a topic each leave is still reported exactly once per change")
+	}
+}
